@@ -398,7 +398,26 @@ type k09QC struct {
 	blk      *k09Block
 }
 
+// watchdog for blocking implementations: see the votingmachine harness
+const (
+	k09Hung     = "step never returns"
+	k09MaxHangs = 3
+)
+
+var k09Hangs int
+
+func k09StepLimit() time.Duration {
+	if os.Getenv("VERIF_TIER") == "thorough" {
+		return 30 * time.Second
+	}
+	return 10 * time.Second
+}
+
 func (w *k09World) kauriCase(s *verifStream, stream string, me int, haveBlocks []*k09Block, evs []k09Ev) {
+	if k09Hangs >= k09MaxHangs {
+		w.v.Count("kauri-skipped-after-watchdog")
+		return
+	}
 	meID := w.id(me)
 	positions := make([]hotstuff.ID, w.n)
 	for i := range positions {
@@ -506,11 +525,14 @@ func (w *k09World) kauriCase(s *verifStream, stream string, me int, haveBlocks [
 		if e.kind != 'M' {
 			kAv = append(kAv, fmt.Sprintf("(%s, %s)", gNs(availIDs), evT[i]))
 		}
-		func() {
+		stepDone := make(chan string, 1)
+		go func() {
+			res := ""
 			defer func() {
 				if p := recover(); p != nil {
-					panicked = fmt.Sprint(p)
+					res = fmt.Sprint(p)
 				}
+				stepDone <- res
 			}()
 			switch e.kind {
 			case 'B':
@@ -534,6 +556,12 @@ func (w *k09World) kauriCase(s *verifStream, stream string, me int, haveBlocks [
 			}
 			drain()
 		}()
+		// watchdog: a node that blocks must not hang the check
+		select {
+		case panicked = <-stepDone:
+		case <-time.After(k09StepLimit()):
+			panicked = k09Hung
+		}
 		if panicked != "" {
 			break
 		}
@@ -708,6 +736,12 @@ func (w *k09World) kauriCase(s *verifStream, stream string, me int, haveBlocks [
 	w.v.Count(fmt.Sprintf("kauri-certificates=%d", nqc))
 	for kd := range kinds {
 		w.v.Count("kauri-stimulus:" + kd)
+	}
+	if panicked == k09Hung {
+		k09Hangs++
+		w.v.Count("kauri-watchdog-fired")
+		w.v.Oracle(false, "kauri:step-never-returns", fmt.Sprintf("a stimulus did not return within %s: the node blocks (stimuli so far: %d of %d)", k09StepLimit(), len(obsT)+1, len(evs)), meta)
+		return
 	}
 	if panicked != "" {
 		w.v.Oracle(false, "kauri.collect:panic", "panic while handling a stimulus: "+panicked, meta)
